@@ -1,13 +1,116 @@
 /-
-  Driver.OpsC14 — protocol operations for property C14 (filled in by the C14 work package).
-  Contract: `handleC14 op` returns the parser for operation `op` or `none` if `op` is not one of
-  this property's operations.
+  Driver.OpsC14 — protocol operations for property C14 (difference data sets).
+
+    c14mesh <domEq> <fields ref> <fields src>     src.diff_to(ref)
+    c14tab  <table ref> <table src>               table := <nrows> <ncols> { <name> array }
+    c14sub  <array ref> <array src>               one array subtraction (model only)
+
+  Reply `hyp=<0|1> model=<canon> spec=<canon> domref=<0|1>`; canon = `;`-joined sorted entries
+  `P|name|dtype|d,d|v,v,…` / `C|name|ctype|dtype|d,d|v,…`, values: integer, `n` (NaN), `+i`, `-i`; `E` = raises.
 -/
-import Driver.Proto
-namespace Fc.Drv
+import Driver.ProtoMesh
+import FcModel.Spec.C14
+namespace Fc.Drv.C14
+open Fc Fc.C14
+
+def showDVal : DVal → String
+  | .fin v => toString v
+  | .inf false => "+i"
+  | .inf true => "-i"
+  | .nan => "n"
+
+def showDType : DType → String
+  | .flt F => if F = f64 then "f64" else if F = f32 then "f32" else if F = f16 then "f16" else "f?"
+  | .int s b => (if s then "i" else "u") ++ toString b
+  | .str => "str"
+
+def showDArr (a : DArr) : String :=
+  showDType a.dtype ++ "|" ++ ",".intercalate (a.shape.map toString) ++ "|" ++ ",".intercalate (a.data.map showDVal)
+
+def canonEntries (l : List String) : String :=
+  ";".intercalate (l.mergeSort (fun a b => decide (¬ b < a)))
+
+def nodupB {α} [BEq α] : List α → Bool
+  | [] => true
+  | x :: r => !(r.contains x) && nodupB r
+
+def arrOk (a : NdArr) : Bool := a.data.length == prodList a.shape && a.dtype != .str
+
+/-- decidable hypothesis of the C14 mesh theorems -/
+def hypC14Mesh (domEq : Bool) (ref src : MeshFields) : Bool :=
+  domEq &&
+  nodupB (ref.pointFields.map (·.name)) && nodupB (src.pointFields.map (·.name)) &&
+  nodupB (ref.cellFields.map fun f => (f.name, f.ctype)) && nodupB (src.cellFields.map fun f => (f.name, f.ctype)) &&
+  ref.pointFields.all (fun f => arrOk f.values) && src.pointFields.all (fun f => arrOk f.values) &&
+  ref.cellFields.all (fun f => arrOk f.values) && src.cellFields.all (fun f => arrOk f.values) &&
+  ref.pointFields.all (fun f => src.pointFields.all fun g => f.name != g.name || f.values.shape == g.values.shape) &&
+  ref.cellFields.all (fun f => src.cellFields.all fun g =>
+    !(f.name == g.name && f.ctype == g.ctype) || f.values.shape == g.values.shape) &&
+  -- every cell-field name of either side is present on every cell type of the reference mesh
+  (ref.cellFields ++ src.cellFields).all (fun f => ref.mesh.cellTypes.all fun ct =>
+    (ref.cellFields ++ src.cellFields).any fun g => g.name == f.name && g.ctype == ct) &&
+  -- and no cell field lives on a type the reference mesh does not have
+  (ref.cellFields ++ src.cellFields).all (fun f => ref.mesh.cellTypes.contains f.ctype)
+
+def opC14Mesh : P String := do
+  let domEq ← pBool
+  let ref ← pMeshFields
+  let src ← pMeshFields
+  let hyp := hypC14Mesh domEq ref src
+  let model := match meshDiffTo domEq src ref with
+    | none => "E"
+    | some d => canonEntries (d.pointFields.map (fun (f : DPointField) => "P|" ++ f.name ++ "|" ++ showDArr f.values)
+        ++ d.cellFields.map (fun (f : DCellField) => "C|" ++ f.name ++ "|" ++ f.ctype ++ "|" ++ showDArr f.values))
+  let domref := match meshDiffTo domEq src ref with
+    | none => "-"
+    | some d => showBool (d.mesh == ref.mesh)
+  let spec := match Spec.meshDiff src ref with
+    | none => "E"
+    | some d => canonEntries (d.points.map (fun (f : String × DArr) => "P|" ++ f.1 ++ "|" ++ showDArr f.2)
+        ++ d.cells.map (fun (f : (String × String) × DArr) => "C|" ++ f.1.1 ++ "|" ++ f.1.2 ++ "|" ++ showDArr f.2))
+  pure s!"hyp={showBool hyp} model={model} spec={if hyp then spec else "-"} domref={domref}"
+
+def pTable : P TableFields := do
+  let n ← pNat
+  let cols ← pList (do let k ← tok; let a ← pArr; pure (k, a))
+  pure ⟨n, cols⟩
+
+def hypC14Tab (ref src : TableFields) : Bool :=
+  nodupB (ref.cols.map (·.1)) && nodupB (src.cols.map (·.1)) &&
+  ref.cols.all (fun c => c.2.shape == [ref.nrows] && c.2.data.length == ref.nrows) &&
+  src.cols.all (fun c => c.2.shape == [src.nrows] && c.2.data.length == src.nrows) &&
+  -- common columns are numeric
+  ref.cols.all (fun c => src.cols.all fun d => c.1 != d.1 || (c.2.dtype != .str && d.2.dtype != .str))
+
+def showTable (t : DiffTable) : String :=
+  toString t.nrows ++ ";" ++ canonEntries (t.cols.map fun c => "T|" ++ c.1 ++ "|" ++ showDArr c.2)
+
+def opC14Tab : P String := do
+  let ref ← pTable
+  let src ← pTable
+  let hyp := hypC14Tab ref src
+  let model := match tableDiffTo src ref with
+    | none => "E"
+    | some t => showTable t
+  let spec := showTable (Spec.tableDiff src ref)
+  pure s!"hyp={showBool hyp} model={model} spec={if hyp then spec else "-"}"
+
+def opC14Sub : P String := do
+  let a1 ← pArr
+  let a2 ← pArr
+  let model := if a1.shape ≠ a2.shape then "E" else match subArr a1 a2 with
+    | none => "E"
+    | some d => showDArr d
+  pure s!"hyp=1 model={model}"
 
 def handleC14 (op : String) : Option (P String) :=
   match op with
+  | "c14mesh" => some opC14Mesh
+  | "c14tab" => some opC14Tab
+  | "c14sub" => some opC14Sub
   | _ => none
 
-end Fc.Drv
+end Fc.Drv.C14
+
+/-- re-export for Driver/Main.lean -/
+def Fc.Drv.handleC14 := Fc.Drv.C14.handleC14
